@@ -225,22 +225,28 @@ PROPS["C13"] = {
              "Last stage (c13_drains.cc): the framework's own consumers. A live Http::Experimental::Client (1-2 I/O threads, 0-3 idle connections) against scripted raw servers; the I/O thread is held "
              "inside a completion callback while a generated batch of 1-5 entries is queued from the application thread - connects that fail on the spot (unroutable address), new connections, "
              "requests on open connections - then released, and nothing further is pushed: every answerable request must be answered within 3 s (if not, one unrelated later request shows whether "
-             "the entries were stranded or lost). Non-trivial there = an answerable entry queued behind a connect that fails on the spot while the thread was held."),
+             "the entries were stranded or lost). Non-trivial there = an answerable entry queued behind a connect that fails on the spot while the thread was held. "
+             "Stage c13_server_drains.cc: the server transport's peer, timer and write queues. A live Http::Endpoint (1-2 workers) whose workers are all held inside a request handler while 0-5 new "
+             "connections with a request each (acceptor -> peersQueue), 0-4 response time-outs armed from a foreign thread on parked response writers (timeoutAfter -> timersQueue) and answers "
+             "written from a foreign thread (-> writesQueue) are queued; then the workers are released and nothing further is pushed: every connection must be answered with its own tag, every "
+             "time-out must give its 408 no earlier than its duration, every foreign answer must arrive, within 3 s. Non-trivial there = >=2 entries for one queue or entries for two queues behind a held worker."),
     "engine": "cooperative scheduler (harness/common/sched.h) + rapidcheck",
     "technique": "systematic schedule enumeration (stateless depth-first search over a harness-owned cooperative scheduler at the hook points) plus rapidcheck-generated schedules; oracle = history invariants (multiset, per-producer order, no missed wake-up)",
     "level_text": "Every sequentially consistent interleaving at hook-point granularity is executed for the small configurations (exhaustive: true refers to those); larger configurations are sampled. Real code, real eventfd/epoll objects.",
-    "level_note": "Sequentially consistent interleavings only, at the granularity of the five hook points (what the property quantifies over); weak-memory effects are not explored. Needs the PISTACHE_VERIF_HOOKS yield points in mailbox.h. Of the framework's five drain loops the last stage runs the client's two (connection queue, request queue); the server transport's write queue is driven by C06's harness, its peer and timer queues by C08/C09 traffic only.",
+    "level_note": "Sequentially consistent interleavings only, at the granularity of the five hook points (what the property quantifies over); weak-memory effects are not explored. Needs the PISTACHE_VERIF_HOOKS yield points in mailbox.h. Of the framework's five drain loops the last stage runs the client's two (connection queue, request queue); the server transport's write queue is driven by C06's harness and, together with its peer and timer queues, by the stage c13_server_drains.cc (batches queued behind held workers).",
     "assumptions": ["the five yield points are the only accesses to state shared between producer and consumer", "poll(eventfd, 0) is the readiness the event loop would see (level-triggered registration)"],
     "quick": {"stages": [{"kind": "replay"},
                          {"kind": "enum", "scope": "all schedules of 1x1, 1x2, 1x3, 2x1 with 0 and 1 early poll (2x1+early-poll capped at 400000 schedules per partition)",
                           "jobs": _enum_jobs([(1, 1, 0), (1, 1, 1), (1, 2, 0), (1, 2, 1), (1, 3, 0), (2, 1, 0), (2, 1, 1)], 400000)},
                          {"kind": "rc", "procs": 4, "cases": 6000, "maxlen": 200},
-                         {"kind": "rc", "source": "c13_drains.cc", "noshrink": True, "procs": 4, "cases": 40, "maxlen": 100}]},
+                         {"kind": "rc", "source": "c13_drains.cc", "noshrink": True, "procs": 4, "cases": 40, "maxlen": 100},
+                         {"kind": "rc", "source": "c13_server_drains.cc", "noshrink": True, "procs": 4, "cases": 30, "maxlen": 100}]},
     "thorough": {"stages": [{"kind": "replay"},
                             {"kind": "enum", "scope": "all schedules of 1x1..1x3, 2x1, 2x2, 3x1 with 0 and 1 early poll (capped at 3000000 schedules per partition)",
                              "jobs": _enum_jobs([(1, 1, 0), (1, 1, 1), (1, 2, 0), (1, 2, 1), (1, 3, 0), (1, 3, 1), (2, 1, 0), (2, 1, 1), (2, 2, 0), (3, 1, 0)], 3000000)},
                             {"kind": "rc", "procs": 8, "cases": 100000, "maxlen": 300},
-                            {"kind": "rc", "source": "c13_drains.cc", "noshrink": True, "procs": 8, "cases": 600, "maxlen": 100}]},
+                            {"kind": "rc", "source": "c13_drains.cc", "noshrink": True, "procs": 8, "cases": 600, "maxlen": 100},
+                            {"kind": "rc", "source": "c13_server_drains.cc", "noshrink": True, "procs": 8, "cases": 400, "maxlen": 100}]},
 }
 
 _C12_CFGS = [(s, r, v) for s in range(4) for r in (0, 1) for v in (0, 1)]
